@@ -25,7 +25,7 @@ RULE = ("Hypothesis generates noisy determined networks whose point identifiers,
 ASSUMPTIONS = ["identifiers are XML tokens (no leading/trailing/double white space); control characters are not generated",
                "HTML precision: coordinates 1e-5 m, observations 1e-5 / 1e-6, standard deviations 0.06 (one printed decimal)",
                "text / Octave layouts as written by the unchanged tree (read by small purpose-built readers)"]
-REQUIRED_CLASSES = ["special_ids", "non_ascii_ids", "cov_band_clipped", "html_checked", "octave_checked", "text_checked",
+REQUIRED_CLASSES = ["reader_big_integer", "special_ids", "non_ascii_ids", "cov_band_clipped", "html_checked", "octave_checked", "text_checked",
                     "comparexyz_two", "deformation_two", "deformation_cov", "epoch2_extra_point", "text_orientations", "mixed_dims"]
 
 SPECIAL = ["A&B", "P<1", "x>y", 'q"t', "it's", "a&amp;b", "<&>", "T-1&2", "R'\"", "B&&", "1<2>3", "&lt;"]
@@ -81,7 +81,7 @@ def case(draw):
 
 
 INT_FIELD_RE = re.compile(r"<(count-xyz|count-xy|count-z|distances|directions|angles|xyz-coords|h-diffs|z-angles|s-dists|vectors|"
-                          r"azimuths|equations|unknowns|degrees-of-freedom|defect|dim|band|ind)>(\d+)</\\1>")
+                          r"azimuths|equations|unknowns|degrees-of-freedom|defect|dim|band|ind)>(\d+)</\1>")
 BIG = [2 ** 32, 2 ** 31, 2 ** 33, 3 * 2 ** 32, 2 ** 63, 2 ** 64, 10 ** 20]
 
 
